@@ -7,13 +7,13 @@
 
 use std::cell::Cell;
 use std::sync::atomic::{AtomicBool, AtomicI64, AtomicU32, AtomicU64, Ordering};
-use std::sync::OnceLock;
 
 static ARMED: AtomicBool = AtomicBool::new(false);
+static RNG_ARMED: AtomicBool = AtomicBool::new(false);
 static WALL_BASE_NS: AtomicI64 = AtomicI64::new(0);
 static SKEW_NS: AtomicI64 = AtomicI64::new(0);
 static MONO_BASE_NS: AtomicI64 = AtomicI64::new(1_000_000_000_000);
-static T0: OnceLock<tokio::time::Instant> = OnceLock::new();
+static T0: std::sync::Mutex<Option<tokio::time::Instant>> = std::sync::Mutex::new(None);
 static RNG_KEY: AtomicU64 = AtomicU64::new(0);
 static RNG_CTR: AtomicU64 = AtomicU64::new(0);
 static QID_BITS: AtomicU32 = AtomicU32::new(16);
@@ -26,13 +26,22 @@ thread_local! {
 /// Start serving simulated time and randomness.  Must be called from inside
 /// the (paused) tokio runtime of the worker.
 pub fn arm(seed: u64, wall_base_secs: i64, qid_bits: u32) {
-    T0.set(tokio::time::Instant::now()).ok();
+    *T0.lock().unwrap() = Some(tokio::time::Instant::now());
     WALL_BASE_NS.store(wall_base_secs * 1_000_000_000, Ordering::SeqCst);
     SKEW_NS.store(0, Ordering::SeqCst);
-    RNG_KEY.store(crate::rng::mix64(seed ^ 0x5eed_5eed_0bad_cafe), Ordering::SeqCst);
-    RNG_CTR.store(0, Ordering::SeqCst);
+    if !RNG_ARMED.load(Ordering::SeqCst) {
+        arm_rng(seed);
+    }
     QID_BITS.store(qid_bits, Ordering::SeqCst);
     ARMED.store(true, Ordering::SeqCst);
+}
+
+/// Start serving deterministic randomness (before the worker thread exists,
+/// so that even its thread-local hasher keys are drawn from it).
+pub fn arm_rng(seed: u64) {
+    RNG_KEY.store(crate::rng::mix64(seed ^ 0x5eed_5eed_0bad_cafe), Ordering::SeqCst);
+    RNG_CTR.store(0, Ordering::SeqCst);
+    RNG_ARMED.store(true, Ordering::SeqCst);
 }
 
 pub fn is_armed() -> bool {
@@ -45,8 +54,8 @@ pub fn add_skew_secs(delta: i64) {
 }
 
 pub fn sim_elapsed_ns() -> i64 {
-    let t0 = match T0.get() {
-        Some(t) => *t,
+    let t0 = match T0.try_lock().ok().and_then(|g| *g) {
+        Some(t) => t,
         None => return 0,
     };
     IN_HOOK.with(|h| {
@@ -141,7 +150,7 @@ fn fill_random(buf: &mut [u8]) {
 
 #[unsafe(no_mangle)]
 pub unsafe extern "C" fn getrandom(buf: *mut libc::c_void, len: libc::size_t, flags: libc::c_uint) -> libc::ssize_t {
-    if !ARMED.load(Ordering::Relaxed) {
+    if !RNG_ARMED.load(Ordering::Relaxed) {
         return unsafe { libc::syscall(libc::SYS_getrandom, buf, len, flags) as libc::ssize_t };
     }
     let s = unsafe { std::slice::from_raw_parts_mut(buf as *mut u8, len) };
@@ -151,7 +160,7 @@ pub unsafe extern "C" fn getrandom(buf: *mut libc::c_void, len: libc::size_t, fl
 
 #[unsafe(no_mangle)]
 unsafe extern "Rust" fn __getrandom_v03_custom(dest: *mut u8, len: usize) -> Result<(), getrandom::Error> {
-    if !ARMED.load(Ordering::Relaxed) {
+    if !RNG_ARMED.load(Ordering::Relaxed) {
         let r = unsafe { libc::syscall(libc::SYS_getrandom, dest, len, 0) };
         return if r == len as libc::c_long { Ok(()) } else { Err(getrandom::Error::UNEXPECTED) };
     }
